@@ -1,7 +1,7 @@
 (* C14 — Sequencers hand out disjoint gap-free ranges; cursor is the published prefix. *)
 From Coq Require Import List Arith NArith Lia.
 From DC Require Import Disruptor.Claims Disruptor.Pipeline.
-From DC Require Disruptor.SeqApi Disruptor.SeqApiProofs Disruptor.SeqApiMulti Disruptor.MultiPub.
+From DC Require Disruptor.SeqApi Disruptor.SeqApiProofs Disruptor.SeqApiMulti Disruptor.SeqApiInOrder Disruptor.MultiPub.
 Import ListNotations.
 
 (* concurrent claims by any number of threads (any interleaving of loads and compare-and-swaps on the high
@@ -96,7 +96,15 @@ Theorem C14_multi_concurrent_stranding_refuted :
             MultiPub.pub s 1 = true /\ MultiPub.pub s 2 = true /\ MultiPub.pub s 3 = true /\ MultiPub.pub s 4 = true.
 Proof. exact MultiPub.stranding_reachable. Qed.
 
+(* finding D8 needs overtaking: when every publish is of the OLDEST outstanding claim (several claims outstanding, any
+   consumer progress), the multi-producer sequencer satisfies the whole property - the strict checker answers 0 *)
+Theorem C14_multi_sequencer_api_in_claim_order : forall k ng l,
+  SeqApiInOrder.mp_wf_inorder (SeqApi.mp_init (2 ^ k) ng) [] l = true ->
+  SeqApi.check true SeqApi.c_init l (SeqApi.mp_run (SeqApi.mp_init (2 ^ k) ng) l) = 0%N.
+Proof. exact SeqApiInOrder.mp_inorder_property. Qed.
+
 Print Assumptions C14_claims_tile_in_claim_order.
+Print Assumptions C14_multi_sequencer_api_in_claim_order.
 Print Assumptions C14_multi_concurrent_never_past_unpublished.
 Print Assumptions C14_multi_concurrent_cursor_monotone.
 Print Assumptions C14_multi_concurrent_claims_disjoint.
